@@ -2,6 +2,7 @@ package main
 
 import (
 	"fmt"
+	"os"
 	"slices"
 	"sort"
 	"strings"
@@ -95,16 +96,26 @@ func checkC07(ctx *Ctx) {
 			// family lists: a window of the pool in generation order — spelling variants, prefix
 			// siblings and boundary neighbours of one text are generated next to each other, so a
 			// window holds versions that differ in one token only
-			if li%4 == 1 && len(p.Strs) > n {
+			if li%8 == 1 && len(p.Strs) > n {
 				st := r.Intn(len(p.Strs) - n + 1)
 				list = append(list, p.Strs[st:st+n]...)
 			}
 			// sibling lists: one pool member and the texts derived from it by extending / shortening
 			// one alphanumeric run (half of the time the run after a rare punctuation byte)
-			if li%4 == 3 {
+			if li%4 == 3 || li%8 == 5 {
 				src, after := p.Strs[r.Intn(len(p.Strs))], byte(0)
-				if r.Chance(50) {
-					src, after = pickRare(r, p.Strs, src)
+				if li%4 == 3 {
+					// walk through the punctuation bytes of the candidate set, rarest first, from a
+					// seed-dependent start
+					rareCycle = li/4 + int(ctx.Seed%64)*3
+					var accepted []string
+					for _, c := range cands {
+						if len(c) < 60 && e.Parse(c).OK {
+							accepted = append(accepted, c)
+						}
+					}
+					src, after = pickRare(r, accepted, src)
+					rareCycle = -1
 				}
 				list = append(list, src)
 				for _, t := range prefixSiblingsAfter(r, src, after) {
@@ -115,6 +126,9 @@ func checkC07(ctx *Ctx) {
 				if n < 4 {
 					n = minInt(5, len(list))
 					list = list[:n]
+				}
+				if os.Getenv("VERIF_DEBUG_C07") != "" {
+					fmt.Fprintf(os.Stderr, "siblist %s li=%d after=%q n=%d %q\n", e.Name, li, string(after), n, list)
 				}
 			}
 			for len(list) < n {
@@ -129,6 +143,29 @@ func checkC07(ctx *Ctx) {
 				}
 			}
 			list = list[:n]
+			if e.Name == "alpm" {
+				// one comparability class per list (C01's exclusion): members derived from a pool text
+				// may have lost or gained a pkgrel
+				var same []string
+				var first *bool
+				for _, s := range list {
+					pr := e.Parse(s)
+					if !pr.OK {
+						continue
+					}
+					b, _ := boolField(pr.Val, "hasPkgrel")
+					if first == nil {
+						first = &b
+					}
+					if b == *first {
+						same = append(same, s)
+					}
+				}
+				if len(same) == 0 {
+					continue
+				}
+				list, n = same, len(same)
+			}
 			vals := make([]any, n)
 			strs := make([]string, n)
 			ok := true
